@@ -14,7 +14,7 @@ func TestScratch(t *testing.T) {
 		t.Skip()
 	}
 	b, _ := os.ReadFile(p)
-	bm, err := assemble(string(b))
+	bm, err := assemble(string(b), os.Getenv("C05_CFG"))
 	if err != nil {
 		fmt.Println("ASM ERROR:", err)
 		return
